@@ -16,14 +16,16 @@ open Eff
 def reversePinned : List Ev := [.write .net, .write .knots, .clear .evalpts]
 def nurbsCurveCaches : List Cch := [.evalpts, .bbox, .cpCache, .wCache]
 
-/-- F-12a: the pinned `reverse` of a NURBS curve fails the path check … -/
+/-- F-12a: the pinned `reverse` of a NURBS curve fails the path check …
+    (Closed witness check: a statement about this one concrete input, decided by evaluation.) -/
 theorem reverse_pinned_stale : pathOkOn nurbsCurveCaches reversePinned = false := by decide
 
 /-- … concretely: starting with the unweighted-points cache filled (a `ctrlpts` read), it is stale afterwards -/
 theorem reverse_pinned_witness :
     absRun reversePinned (fun c => if c = .cpCache then .fresh else .empty) .cpCache = .stale := by decide
 
-/-- the repaired `reverse` (`self.set_ctrlpts(list(reversed(…)))` first) passes -/
+/-- the repaired `reverse` (`self.set_ctrlpts(list(reversed(…)))` first) passes
+    (Closed witness check: a statement about this one concrete input, decided by evaluation.) -/
 theorem reverse_repaired_ok : pathOkOn nurbsCurveCaches
     [.write .net, .clear .bbox, .clear .evalpts, .clear .cpCache, .clear .wCache, .write .net, .write .sizes,
      .write .knots, .clear .evalpts] = true := by decide
@@ -31,10 +33,12 @@ theorem reverse_repaired_ok : pathOkOn nurbsCurveCaches
 def containerDeltaUPinned : List Ev := [.write .delta]
 def surfContainerCaches : List Cch := [.cEval, .cVerts, .cFaces]
 
-/-- F-12d: the per-direction delta / sample-size setters of the containers fail the path check … -/
+/-- F-12d: the per-direction delta / sample-size setters of the containers fail the path check …
+    (Closed witness check: a statement about this one concrete input, decided by evaluation.) -/
 theorem container_delta_u_pinned_stale : pathOkOn surfContainerCaches containerDeltaUPinned = false := by decide
 
-/-- … and pass with the `reset()` their sibling setters `delta` / `sample_size` perform -/
+/-- … and pass with the `reset()` their sibling setters `delta` / `sample_size` perform
+    (Closed witness check: a statement about this one concrete input, decided by evaluation.) -/
 theorem container_delta_u_repaired_ok : pathOkOn surfContainerCaches
     [.write .delta, .clear .cEval, .clear .cVerts, .clear .cFaces] = true := by decide
 
